@@ -599,6 +599,13 @@ def rule_P14(ctx):
     for r in ast.walk(f.node):
         if isinstance(r, ast.Return) and textually_before(r, mc):
             inst = (f.qualname, "early return", untag(norm_src(r)))
+            up = r
+            while up is not None and not (isinstance(up, ast.If) and isinstance(
+                    getattr(up, "_parent", None), ast.FunctionDef)):
+                up = getattr(up, "_parent", None)
+            if up is not None and _is_precondition_exit(fg, up):
+                res.holds(inst, "ignores every report alike (the test does not read the event)")
+                continue
             res.violated(inst, _f(
                 "P14", f, r, "return before the task machine",
                 "update_task_state returns before the task state machine has seen the report "
@@ -638,19 +645,26 @@ def rule_F12(ctx):
         n += 1
         inst = (f.qualname, untag(norm_src(c)), n)
         why = None
+        in_handler_ok = False
         # inside a handler of a try that holds the machine call
         up = c
         while up is not None and up is not f.node:
             par = getattr(up, "_parent", None)
             if isinstance(up, ast.ExceptHandler) and isinstance(par, ast.Try) and any(
                     mc is x for b in par.body for x in ast.walk(b)):
-                why = "it is made in the error handler around the task state machine: a " \
-                      "report that the machine rejects (a duplicate, an unknown event) fails " \
-                      "a workflow that may already have ended"
+                live = any(a[0] == "notin" and isinstance(a[2], frozenset) and completed <= a[2]
+                           and "status" in str(a[1]) for a in fg.atoms(c))
+                if live:
+                    in_handler_ok = True
+                else:
+                    why = "it is made in the error handler around the task state machine " \
+                          "without requiring that the workflow has not ended: a report that " \
+                          "the machine rejects (a duplicate, an unknown event) fails a " \
+                          "workflow that may already have ended"
             up = par
-        if why is None and not textually_before(mc, c):
+        if why is None and not in_handler_ok and not textually_before(mc, c):
             why = "it is made before the task state machine has accepted the report"
-        if why is None:
+        if why is None and not in_handler_ok:
             alts = expand_alternatives(f, fg, fg.atoms(c))
             for alt in alts:
                 changed = any(a[0] == "!=" and isinstance(a[2], tuple) and "status" in str(a[1])
@@ -1055,16 +1069,66 @@ def _criteria_guard_1(ctx, f0, fg0, node, atoms):
 
 
 # ====================================================================== P4
+def _reads_event_fields(test, event):
+    """The expression reads an attribute of the event parameter (its status, result, item id
+    ...) - other than to ask for its class."""
+    if event is None:
+        return False
+    skip = set()
+    for c in ast.walk(test):
+        if isinstance(c, ast.Call) and isinstance(c.func, ast.Name) and c.func.id in (
+                "isinstance", "issubclass", "type"):
+            skip |= {id(x) for x in ast.walk(c)}
+    for x in ast.walk(test):
+        if id(x) in skip:
+            continue
+        if isinstance(x, ast.Attribute) and isinstance(x.value, ast.Name) and x.value.id == event:
+            return True
+        if isinstance(x, ast.Call) and isinstance(x.func, ast.Name) and x.func.id == "getattr" \
+                and x.args and isinstance(x.args[0], ast.Name) and x.args[0].id == event:
+            return True
+    return False
+
+
+def _is_precondition_exit(fg, origin):
+    """An early exit that is a precondition of the whole call rather than a condition on what
+    follows: `if ...: raise X`, or a silent `return` / `return None` whose test does not look
+    at the fields of the event being reported (so it cannot ignore one report of a task and
+    process the next: whatever it ignores, it ignores for every report alike)."""
+    if not isinstance(origin, ast.If):
+        return False
+    arm = origin.body if terminates(origin.body) else origin.orelse
+    if not arm:
+        return False
+    last = arm[-1]
+    if isinstance(last, ast.Raise):
+        return True
+    if isinstance(last, ast.Return) and (last.value is None or (
+            isinstance(last.value, ast.Constant) and last.value.value is None)):
+        params = [p for p in fg.f.params if p not in ("self", "cls")]
+        event = params[2] if len(params) >= 3 and fg.f.name == "update_task_state" else None
+        if event is None:
+            return False
+        # nothing persistent happens in the exiting arm (logging apart)
+        for st in arm[:-1]:
+            for c in ast.walk(st):
+                if isinstance(c, (ast.Assign, ast.AugAssign, ast.Delete)):
+                    if not all(isinstance(t, ast.Name) for t in getattr(c, "targets", [getattr(
+                            c, "target", None)])):
+                        return False
+        return not _reads_event_fields(origin.test, event)
+    return False
+
+
 def _atoms_wo_validation(fg, node):
-    """Guard atoms of node, ignoring negated validation raises (if ...: raise X) that precede
-    it: those are preconditions of the whole call, not conditions on this statement."""
+    """Guard atoms of node, ignoring the negations of precondition exits that precede it
+    (validation raises, non-selective silent returns): those are preconditions of the whole
+    call, not conditions on this statement."""
     gs, _ = fg.context(node)
     out = []
     for g in gs:
-        if g.kind == "early-exit" and isinstance(g.origin, ast.If):
-            arm = g.origin.body if terminates(g.origin.body) else g.origin.orelse
-            if arm and isinstance(arm[-1], ast.Raise):
-                continue
+        if g.kind == "early-exit" and _is_precondition_exit(fg, g.origin):
+            continue
         out.extend(g.atoms)
     return out
 
